@@ -12,12 +12,14 @@ def run(rep):
                 'TraceSites. Non-trivial = history with at least one change / record with non-empty table.')
     rep.assumptions = ['histories realised in cells of 6 families x 3 orientations; site spheres separated by > 0.6 A margins',
                        'a history without any change raises in the event builder (outside the property\'s domain): skipped']
-    sc.leg_m(rep, 'C03', [(5, 2, 1, 0), (3, 2, 2, 0)] if quick else [(7, 2, 1, 0), (5, 3, 1, 0), (4, 2, 2, 0)])
+    sc.leg_m(rep, 'C03', [(5, 2, 1, 0), (3, 2, 2, 0), (5, 2, 1, 0, 'mixed')] if quick else [(7, 2, 1, 0), (5, 3, 1, 0), (4, 2, 2, 0), (6, 2, 1, 0, 'mixed'), (4, 3, 1, 0, 'mixed')])
     sc.leg_a(rep, 'C03', 5 if quick else 7, 2, 0)
     if not quick:
         sc.leg_a(rep, 'C03', 5, 3, 0)
     sc.leg_b(rep, 'C03', 30 if quick else 400, 40 if quick else 60, 3 if quick else 4, 4 if quick else 5,
              list(__import__('harness.gen', fromlist=['x']).FAMILIES), ms=(), ks=())
+    sc.overlap_cases(rep, 'C03', 12 if quick else 150, ms=())
     sc.narrow_dtype_cases(rep, 4 if quick else 12, 180 if quick else 600)
     sc.scale_by_tiling(rep, 33200 if quick else 70000, ms=())
+    sc.many_sites(rep, 11 if quick else 13, ms=(), want=('Hist', 'Events', 'Prev', 'Next'))
     rep.exhaustive = True
